@@ -2,6 +2,7 @@ package props
 
 import (
 	"fmt"
+	"strings"
 
 	lib "github.com/corazawaf/libinjection-go"
 
@@ -72,14 +73,35 @@ func init() {
 			return nil
 		},
 		Phases: []fw.Phase{
-			{Name: "trie-H1", Space: "H1^<=5", Share: 3,
-				Run: func(w *fw.W) { w.Trie(alpha.H1, 0, 5) }, Eval: evalC13},
-			{Name: "trie-H1core-deep", Space: "H1core^6", Share: 4, ThoroughOnly: true,
-				Run: func(w *fw.W) { w.Trie(alpha.H1core, 6, 6) }, Eval: evalC13},
+			{Name: "trie-H1", Space: "H1^<=4 (quick) / <=5 (thorough)", Share: 3,
+				Run: func(w *fw.W) { w.Trie(alpha.H1, 0, w.Pick(4, 5)) }, Eval: evalC13},
+			{Name: "trie-H1core-deep", Space: "H1core^5 (quick) / ^5..6 (thorough)", Share: 4,
+				Run: func(w *fw.W) { w.Trie(alpha.H1core, 5, w.Pick(5, 6)) }, Eval: evalC13},
 			{Name: "trie-H2", Space: "H2^<=4 (quick) / <=5 (thorough)", Share: 3,
 				Run: func(w *fw.W) { w.Trie(alpha.H2, 1, w.Pick(4, 5)) }, Eval: evalC13},
 			{Name: "corpus-cuts", Space: "all fixture cuts", Share: 1,
 				Run: func(w *fw.W) { w.Each(len(cuts), func(i int) { w.Item(cuts[i], "") }) }, Eval: evalC13},
+			{Name: "grammar-vectors", Space: "every base vector of the C04 grammar (every black tag / event / URL attribute x scheme / markup form) as written", Share: 2,
+				Run: func(w *fw.W) { v := c04Vectors(false); w.Each(len(v), func(i int) { w.Item(v[i], "") }) }, Eval: evalC13},
+			{Name: "long-inputs", Space: "every 40th grammar vector padded before / after with 70 000 and 1 100 000 bytes (size-dependent paths)", Share: 2,
+				Run: func(w *fw.W) {
+					v := c04Vectors(false)
+					pads := []int{70000, 1100000}
+					w.Each(len(v)/40+1, func(i int) {
+						if i*40 >= len(v) {
+							return
+						}
+						for _, n := range pads {
+							w.Item(v[i*40]+strings.Repeat("a", n), "")
+							w.Item(strings.Repeat("a ", n/2)+v[i*40], "")
+						}
+					})
+				}, Eval: evalC13},
 		},
 	})
+}
+
+func init() {
+	c := fw.Lookup("C13")
+	c.Phases = append(c.Phases, htmlExtraPhases(evalC13, true)...)
 }
